@@ -25,7 +25,7 @@ package xsync
 //@   ensures order-kept: s.order == old(s.order)
 //@   ensures only-removes: forall j K :: has(s.items, j) ==> old(has(s.items, j)) && s.items[j] == old(s.items[j])
 //@   ensures never-drops-live: forall j K :: old(has(s.items, j)) && !has(s.items, j) ==> old(s.order[s.items[j]].expireAt) <= now
-//@   modifies TTLMap[K,V].head, map(K,int)
+//@   modifies TTLMap[K,V].head, map(K,int), ttlEntry[K,V].*
 
 //@ func (*TTLMap).Delete(s, k)
 //@   requires tm_wf(s)
